@@ -27,6 +27,21 @@ def generate(rng, tier):
             c = gen.world(rng, 'w%d' % i, opts=gen.Opts(max_modules=4, max_items=4, max_fields=3, shuffle_prio=False))
         c.append([S('fseed'), rng.randrange(1 << 30)])
         cases.append(c)
+    # scoping scenarios: the observed module imports one type of `x` by name and module `z` as a whole; a name it
+    # uses is defined in `z` only.  (The decoy change then defines that name in `x` as well.)
+    for i in range(n // 5):
+        k = rng.randint(2, 9)
+        x = modent(path('x%d' % i), module(defs=[type_def(True, 'Foo', [a_ident('packed')], [field(True, 'a', ty_arr(ty_id('u8'), k))])]))
+        z = modent(path('z%d' % i), module(defs=[type_def(True, 'Tee', [a_ident('packed')], [field(True, 'b', ty_arr(ty_id('u8'), k + 1))]),
+                                                  type_def(True, 'Other', [a_ident('packed')], [field(True, 'c', ty_id('u8'))])]))
+        uses = [path('x%d' % i, 'Foo'), path('z%d' % i)]
+        if rng.random() < 0.5: uses.reverse()
+        m = modent(path('obs%d' % i), module(uses=uses, defs=[type_def(True, 'M', [a_ident('packed')], [
+            field(True, 'f', ty_id('Foo')), field(True, 't', ty_id('Tee')), field(True, 'p', ty_cptr(ty_id('Other')))])]))
+        ents = [x, z, m]; rng.shuffle(ents)
+        c = case('sc%d' % i, rng.choice([4, 8]), ents)
+        c.append([S('fseed'), rng.randrange(1 << 30)]); c.append([S('observe-hint'), path('obs%d' % i)])
+        cases.append(c)
     return cases
 
 def judge(c, impl, model):
@@ -99,18 +114,42 @@ def changes(c, rng):
     mods = modules_of(c)
     if len(mods) < 1:
         return out
-    own = rng.choice(mods)[0]
+    hint = find(c, 'observe-hint')
+    own = list(hint[1][1:]) if hint is not None else rng.choice(mods)[0]
     R, where, modmap = reach(c, own)
     reach_mods = set(mp for (mp, n_) in R) | {tuple(own)}
     imported = set(tuple(u) for u in m_uses(modmap[tuple(own)]))
     me = find(c, 'modules')
     # 1. a new unrelated module, with decoys named like reachable types
     decoys = [n_ for (mp, n_) in R][:2]
-    newdefs = [type_def(True, 'Unrelated', [], [field(True, 'a', ty_id('u32'))])] + \
+    newdefs = [type_def(True, 'Unrelated', [a_int('align', 4)], [field(True, 'a', ty_id('u32'))])] + \
               [type_def(True, n_, [a_ident('packed')], [field(True, 'z', ty_arr(ty_id('u8'), 3))]) for n_ in decoys]
     for newpath in (['zz_new'], ['zz', 'deep', 'new']):
         if tuple(newpath) not in modmap:
             out.append(('add-module', c[:4] + [me + [modent(path(*newpath), module(defs=newdefs))]] + c[5:], own)); break
+    # 1b. a new module nested *below* the observed module (a/b.pyxis next to a.pyxis): nothing in it is reachable
+    nested = list(own) + ['zsub']
+    if tuple(nested) not in modmap:
+        out.append(('add-nested-module', c[:4] + [me + [modent(path(*nested), module(defs=[
+            type_def(True, 'Inner', [a_int('align', 2)], [field(True, 'x', ty_id('u16')), field(True, 'y', ty_id('u16'))])]))]] + c[5:], own))
+    # 1c. a decoy in a module from which the observed module imports a *type* (not the module): a type named like
+    #     a name the observed module mentions and that is bound elsewhere
+    mentioned = set()
+    for d in m_defs(modmap[tuple(own)]):
+        mentioned |= set(mentioned_names(d))
+    for u in m_uses(modmap[tuple(own)]):
+        if u and u[-1] in where and where[u[-1]] == tuple(u[:-1]) and tuple(u[:-1]) not in imported and tuple(u[:-1]) != tuple(own):
+            x = tuple(u[:-1])
+            names_there = set(d[2] for d in modmap[x][5][1:]) | set(xt[1] for xt in modmap[x][3][1:])
+            cand = sorted(n_ for n_ in mentioned if n_ in where and where[n_] != x and n_ not in names_there and where[n_] != tuple(own))
+            if cand:
+                n_ = cand[0]
+                for idx, ent in enumerate(me[1:]):
+                    if tag(ent) == 'module' and tuple(ent[1][1:]) == x:
+                        m2 = list(ent[3]); m2[5] = ent[3][5] + [type_def(True, n_, [a_ident('packed')], [field(True, 'decoy', ty_arr(ty_id('u8'), 3))])]
+                        ent2 = list(ent); ent2[3] = m2
+                        out.append(('add-decoy-next-to-imported-type', c[:4] + [me[:idx + 1] + [ent2] + me[idx + 2:]] + c[5:], own))
+                break
     # per-module edits
     for idx, ent in enumerate(me[1:]):
         if tag(ent) != 'module': continue
@@ -121,7 +160,7 @@ def changes(c, rng):
         if mp != tuple(own) and mp not in imported:
             # 2. an unreferenced type added to another module (module imports of the observed module excluded:
             #    a new name there could legitimately capture nothing, but keep the rule simple)
-            m2 = list(m); m2[5] = m[5] + [type_def(True, 'Extra%d' % idx, [], [field(True, 'q', ty_id('u64'))])]
+            m2 = list(m); m2[5] = m[5] + [type_def(True, 'Extra%d' % idx, [a_int('align', 8)], [field(True, 'q', ty_id('u64'))])]
             ent2 = list(ent); ent2[3] = m2
             out.append(('add-type', c[:4] + [me[:idx + 1] + [ent2] + me[idx + 2:]] + c[5:], own))
         for d in unreach:
@@ -166,7 +205,7 @@ def judge_all(cases, impl, model, tier):
         except Exception as e:
             fs.append(Finding('K', 'C19/change-construction-failed', c[1], repr(e)[:200])); continue
         rng.shuffle(chs)
-        for k, (kind, c2, own) in enumerate(chs[:4]):
+        for k, (kind, c2, own) in enumerate(chs[:4] if find(c, 'observe-hint') is None else chs):
             c2 = list(c2); c2[1] = '%s~%s%d' % (c[1], kind, k)
             pairs.append((c, c2, kind, own))
     lines = [sexp.dump(c2) for (_, c2, _, _) in pairs]
